@@ -279,6 +279,8 @@ where
                 match ch {
                     '<' => document.create_entity_reference("lt")?.as_node(),
                     '&' => document.create_entity_reference("amp")?.as_node(),
+                    // next to "]]" a literal ">" would end a CDATA section that is not there
+                    '>' => document.create_entity_reference("gt")?.as_node(),
                     _ => document.create_text_node(ch.to_string().as_str()).as_node(),
                 }
             } else {
